@@ -5,7 +5,26 @@ reg(id="CS3G",
     props_file="Props/CS3G.v",
     mismatch_is_failure=True,
     level="proof",
-    rule="placeholder",
-    trusted_base=TB_COMMON,
-    assumptions=[],
-    explanation="placeholder")
+    rule="calls of snow3g.GetKeyStream, security.NEA1, security.NIA1 and NASEncrypt / NASMacCalculate with AlgoID 1, replayed on the model: "
+         "published known answers + F4 witness (empty message); every bearer 0..31 x direction 0..1 for NEA1 and NIA1; every NEA1 bit length "
+         "32w+m (w = 0..5, m = 0..31, some with input longer than the bit length); payloads of 0..40 octets through the in-place API; every NIA1 "
+         "bit length 0..130 and 64k-1, 64k, 64k+1 (pad bits zero); counts {0, 1, 2^31, 2^32-1, random}; keys all-zero, all-one, single-bit, random; "
+         "structured random; an out-of-domain stream (bit length beyond the input, bearer/direction beyond 5/1 bits, garbage pad bits) where only "
+         "model = implementation is compared. non-trivial = in-domain call with a non-empty input, distinct by full argument tuple. "
+         "Go nil and empty slices are both [] in the model; nil payload/message (an API error) is checked on the Go side only.",
+    trusted_base=TB_COMMON + [
+        "hand-written model coq/CS3G/Model.v of snow3g.go and NEA1/NIA1 (tied to the implementation by the correspondence run; the sr/sq tables are exercised through the keystream)",
+        "modelled stdlib calls: binary.BigEndian.Uint32/Uint64/PutUint32, make, copy",
+        "specification transcription coq/CS3G/Spec.v (validated in Coq by the published SNOW 3G / 128-EEA1 / 128-EIA1 test sets and by the algebraic definitions of both S-boxes)",
+    ],
+    assumptions=[
+        "8*len(payload) < 2^32 - 31 for NEA1 (uint32 bit length; at exactly 2^29 octets the API zeroes the payload: CS3G_api_length_wrap_observation)",
+        "len(msg) < 2^60 for NIA1 (uint64 bit length)",
+        "an N-bit message is ceil(N/8) octets whose bits beyond N are zero (NIA1 does not mask them: CS3G_nia1_padbits_observation)",
+        "keys are 16 octets, COUNT < 2^32, BEARER < 32, DIRECTION < 2 (the API wrappers are total for every bearer/direction octet)",
+    ],
+    explanation="Theorems CS3G_keystream_eq_spec / CS3G_nea1_eq_uea2 / CS3G_nia1_eq_uia2: the model of GetKeyStream, NEA1 (first `length` bits, every bit length) "
+                "and NIA1 (every bit length incl. 0) equals the ETSI/SAGE SNOW 3G / UEA2 / UIA2 specification under the TS 33.401 B / TS 33.501 D mapping; "
+                "CS3G_nea1_length/_involution/_prefix/_keystream_indep, CS3G_total, CS3G_mac_len4: the C08 laws for algorithm identity 1. "
+                "The correspondence run replays every implementation call on the model, so a disagreement is an input on which the implementation "
+                "differs from the standard; the Go-side oracle checks known answers and the laws directly.")
